@@ -45,6 +45,7 @@ def parseAct : List String → Option Act
   | ["semacq"] => some .semacq
   | ["semcancel"] => some .semcancel
   | ["creq"] => some .creq
+  | ["dial", a] => a.toNat?.map .dial
   | ["connret", r] => (parseRes r).map .connret
   | ["ev", k, cmds] => match parseKind k, parseCmds cmds with
     | some k, some c => some (.ev k c)
@@ -64,7 +65,7 @@ def b01 (b : Bool) : String := if b then "1" else "0"
 def holders (s : St) : Nat := s.conns.countP (fun c => holding c.pc)
 
 def summary (s : St) : String :=
-  s!"{s.conns.countP (·.entry)} {s.conns.countP (fun c => wopen c.pc)} {b01 s.centry} {b01 s.cwopen} {holders s} {hpcName s.hpc} {s.nCC} {s.nCD} {b01 s.lateOpen} {s.hcount} {(s.waiters 0).length + (s.waiters 1).length} {(s.size - s.semv 0) + (s.size - s.semv 1)}"
+  s!"{s.conns.countP (·.entry)} {s.conns.countP (fun c => wopen c.pc)} {b01 s.centry} {b01 s.cwopen} {holders s} {hpcName s.hpc} {s.nCC} {s.nCD} {b01 s.lateOpen} {s.hcount} {((List.range 8).map (fun a => (s.waiters a).length)).sum} {((List.range 8).map (fun a => s.size - s.semv a)).sum}"
 
 def connSummary (s : St) : String :=
   if s.conns.isEmpty then "-" else
